@@ -998,7 +998,7 @@ class Patron(object):
                                       "host '{0}'".format(location))
                 self.connector.close()
                 if secured:
-                    context = getattr(self.connector, 'context')
+                    context = getattr(self.connector, 'context', None)  # None when was not tls
                     connector = ClientTls(store=self.connector.store,
                                            name=self.connector.name,
                                            uid=self.connector.uid,
